@@ -40,8 +40,11 @@ def run_conc(binp, S, cases, Sreal=None):
     env = {"VSHIM_SNDBUF": S} if S else {}
     recs, trace, rc, err = C.run_harness(binp, "conc", lines, env_extra=env, timeout=900)
     by = {r["id"]: r for r in recs if r.get("kind") == "conc"}
+    aborted = any(r.get("kind") == "aborted" for r in recs)
     out = []
     for c in cases:
+        if c["id"] not in by and aborted:
+            continue
         out.append({"case": c, "rec": by.get(c["id"]), "trace": trace, "stderr": err if c["id"] not in by else ""})
     return out
 
